@@ -159,6 +159,37 @@ pub fn run(ctx: &Ctx) {
             check(ctx, &cur, None, "mutation");
         }
     }
+    // sibling keys: maps keyed by two values that differ minimally (incl. pairs Erlang's == identifies: 1 / 1.0,
+    // 0.0 / -0.0, and non-finite floats with different payloads): both decoders must build the same map
+    {
+        use crate::genr::near::{Family, Twins, families, sibling_maps};
+        let mut fams = families(&mut grng);
+        fams.push(Family {
+            name: "num:non-finite",
+            members: [0x7ff8_0000_0000_0000u64, 0xfff8_0000_0000_0000, 0x7ff8_0000_0000_0001, 0x7ff0_0000_0000_0001, 0x7ff0_0000_0000_0000, 0xfff0_0000_0000_0000, 0x3ff0_0000_0000_0000, 0x7fef_ffff_ffff_ffff]
+                .iter()
+                .map(|b| Val::Float(*b))
+                .collect(),
+        });
+        let maps = sibling_maps(&fams, Twins::Keep, true);
+        let mut n = 0u64;
+        for (fam, v) in &maps {
+            if !ctx.time_left() {
+                break;
+            }
+            let mut ch = RandomChooser { rng: &mut rng, legacy_bias: 50, taken: vec![] };
+            if let Ok(b) = ref_encode(v, &mut ch, &opts) {
+                ctx.class(&format!("siblings/{}", fam));
+                check(ctx, &b, if *fam == "num:non-finite" { None } else { Some(v) }, "map keyed by sibling values");
+                n += 1;
+                let donor = &corpus[rng.below(corpus.len())].1;
+                let m = mutate(&mut rng, &b, donor);
+                check(ctx, &m, None, "mutation of a sibling-key map");
+            }
+        }
+        ctx.extra("sibling_key_maps", json!(n));
+    }
+
     // nesting boundary: both decoders must draw the line at the same depth, whatever sits inside
     let units: Vec<(&str, Vec<u8>)> = vec![
         ("tuple", vec![104, 1]),
